@@ -120,6 +120,8 @@ type c14cfgClass struct {
 	CommonCache   map[string]bool // categories whose cache tier is one store for both nodes
 	Persisted     map[string]bool
 	CommonPersist bool // both nodes talk to the same persistent store
+	PersistFlag   bool // persistence.enabled=true (the shipped default) although the class is not the json class
+	SkipReach     bool // do not judge what reached a durable tier (only behaviour)
 }
 
 func c14cfgSet(cats ...string) map[string]bool {
@@ -136,6 +138,10 @@ func c14cfgClasses() []c14cfgClass {
 		{Name: "memory", CommonCache: c14cfgSet(), Persisted: c14cfgSet()},
 		{Name: "json", JSON: true, CommonCache: c14cfgSet(), Persisted: pers},
 		{Name: "redis", Redis: true, CommonCache: c14cfgSet(c14cfgCats...), Persisted: c14cfgSet()},
+		// Redis cluster mode with the persistence section left at its shipped default: still no
+		// per-node durable tier (a private file behind a shared cache would resurrect what
+		// another node deleted / overwrote)
+		{Name: "redis+persistence-flag", Redis: true, PersistFlag: true, SkipReach: true, CommonCache: c14cfgSet(c14cfgCats...), Persisted: c14cfgSet()},
 		{Name: "remote", Remote: true, CommonCache: c14cfgSet(), Persisted: pers, CommonPersist: true},
 		{Name: "remote+redis", Remote: true, Redis: true, CommonCache: c14cfgSet("shared", "sharedpersistent"), Persisted: pers, CommonPersist: true},
 	}
@@ -151,6 +157,7 @@ type c14cfgEnv struct {
 	class c14cfgClass
 	ctx   context.Context
 	stub  *c14cfgStub
+	mr    *miniredis.Miniredis
 	cfgs  [2]*Config
 	nodes [2]storage.FullStorage
 }
@@ -195,6 +202,9 @@ func c14cfgList(n storage.FullStorage, key string) (map[string]bool, error) {
 
 // persistedHas reports whether key is in the persistent tier node n writes to.
 func (e *c14cfgEnv) persistedHas(n int, key string) (bool, bool) {
+	if e.class.SkipReach {
+		return false, false
+	}
 	if e.stub != nil {
 		return e.stub.has(key), true
 	}
@@ -300,6 +310,34 @@ func (e *c14cfgEnv) checkPrefix(cat, prefix, tag string) {
 		}
 	}
 
+	// 3b. the shared-cache entry is lost (TTL expiry / eviction / Redis restart) after the peer
+	// overwrote / deleted the key: the writer of the OLDER value must not get it back
+	if common && e.mr != nil {
+		k5 := k("e")
+		if !e.harnessErr("A.Set", A.Set(k5, "old-A", time.Minute)) && !e.harnessErr("B.Set", B.Set(k5, "new-B", time.Minute)) {
+			e.mr.Del(k5)
+			e.run.Count("cache_loss_probes", 1)
+			if v, found, err := c14cfgGet(A, k5); !e.harnessErr("A.Get", err) {
+				if found && v != "new-B" {
+					e.viol(cat, "older-value-after-shared-cache-loss", map[string]any{"key": k5, "value": v})
+				}
+				if !found && e.class.Persisted[cat] {
+					e.viol(cat, "persisted-value-lost-with-shared-cache", map[string]any{"key": k5})
+				}
+			}
+		}
+		k6 := k("f")
+		if !e.harnessErr("A.Set", A.Set(k6, "old-A", time.Minute)) && !e.harnessErr("B.Delete", B.Delete(k6)) {
+			e.mr.Del(k6)
+			if v, found, err := c14cfgGet(A, k6); !e.harnessErr("A.Get", err) && found {
+				e.viol(cat, "deleted-value-back-after-shared-cache-loss", map[string]any{"key": k6, "value": v})
+			}
+			if ex, err := A.Exists(k6); !e.harnessErr("A.Exists", err) && ex {
+				e.viol(cat, "deleted-value-back-after-shared-cache-loss", map[string]any{"key": k6, "exists": true})
+			}
+		}
+	}
+
 	// 4. index list
 	k4 := k("l")
 	want := []string{"m1", "m2"}
@@ -351,7 +389,7 @@ func TestVerifC14ConfigRouting(t *testing.T) {
 	vk.Quiet()
 	run := vk.Start(t, "C14", "config-routing")
 	defer run.Finish()
-	run.Rule("case = (server configuration class memory/json/redis/remote/remote+redis built by the real createStorage, key prefix of DefaultConfig [all 36], " +
+	run.Rule("case = (server configuration class memory/json/redis/redis+persistence-flag/remote/remote+redis built by the real createStorage, key prefix of DefaultConfig [all 36], " +
 		"check: write-then-peer-read, write+delete-then-peer-read, peer overwrite/delete, index list fed from the nodes, what reached the persistent tier); " +
 		"two nodes per class (+ a node restarted on node A's file in the json class); expected visibility = the tier holding the category is common to both nodes")
 	r := run.Rand("keys")
@@ -368,6 +406,7 @@ func TestVerifC14ConfigRouting(t *testing.T) {
 					t.Fatalf("c14: miniredis: %v", err)
 				}
 				defer mr.Close()
+				e.mr = mr
 			}
 			addr := ""
 			if cl.Remote {
@@ -394,7 +433,7 @@ func TestVerifC14ConfigRouting(t *testing.T) {
 					cfg.Storage.URL = addr
 					cfg.Storage.Timeout = 2
 				}
-				if cl.JSON {
+				if cl.JSON || cl.PersistFlag {
 					cfg.Persistence.Enabled = true
 					cfg.Persistence.File = filepath.Join(dir, fmt.Sprintf("node%d.json", n))
 				}
@@ -442,7 +481,8 @@ func TestVerifC14ConfigRouting(t *testing.T) {
 			_ = e.nodes[1].Close()
 		}()
 	}
-	run.Floor("classes", 5)
+	run.Floor("classes", 6)
+	run.Floor("cache_loss_probes", 60)
 	run.Floor("peer_reads", 5*36)
 	run.Floor("visible_expected", 50)
 	run.Floor("hidden_expected", 50)
